@@ -1,0 +1,14 @@
+//go:build verif
+
+package exported
+
+// Contracts for the deductive verifier in /verif (govc). Comment-only; compiled only with -tags verif.
+
+//@ spec func ackSuccess(a iface) bool
+//@ spec func ackBytes(a iface) string
+
+//@ contract interface Acknowledgement.Success
+//@   ensures result == ackSuccess(self)
+
+//@ contract interface Acknowledgement.Acknowledgement
+//@   ensures result == ackBytes(self)
